@@ -24,7 +24,7 @@ func checkInternal(t *rapid.T, s *secp256k1.Scalar) {
 }
 
 func propHooks(t *rapid.T) {
-	which := rapid.SampledFrom([]string{"pow2k", "reducesat", "rawlimbs"}).Draw(t, "which")
+	which := gen.Sampled([]string{"pow2k", "reducesat", "rawlimbs"}).Draw(t, "which")
 	switch which {
 	case "pow2k":
 		a, _, kind := gen.Pair(t, N, "p")
